@@ -1145,9 +1145,9 @@ func runC18(r *Run, rng *Rng, tier string) error {
 	nTrees := 20
 	ondisk := 3
 	if tier == "thorough" {
-		nTrees = 400
-		ondisk = 25
-		r.shard = 4
+		nTrees = 160
+		ondisk = 10
+		r.shard = 2
 	}
 	r.Meta.Rule = "local trees: 1-3 kustomization roots (Kustomization/Component; via resources/bases/components) inside a scope, " +
 		"files referenced from openapi.path, configurations, crds, resources, configMapGenerator/secretGenerator files/envs/env, patches, " +
@@ -1161,7 +1161,7 @@ func runC18(r *Run, rng *Rng, tier string) error {
 	runDisk18(r)
 	maxTrace := 110
 	if tier == "thorough" {
-		maxTrace = 260
+		maxTrace = 180
 	}
 	for i := 0; i < nTrees; i++ {
 		// rejection sampling on size keeps the quick tier inside its time budget (every tree costs
